@@ -177,11 +177,12 @@ func v6Options(variant int) [][]byte {
 		opt6(17, be32(40808), cat(be16(1), be16(5), []byte("hello"), be16(2), be16(3), []byte{1, 2, v})),
 		opt6(18, []byte("eth0/1/"+string(rune('0'+variant%10)))),
 		opt6(23, ip6("2001:4860:4860::8888"), ip6("2001:4860:4860::8844")),
-		opt6(24, labels("search.example.org", "corp.example.net")),
+		opt6(24, labels("search.example.org", "lan", "corp.example.net")),
 		opt6(32, be32(86400)),
 		opt6(37, be32(3561), []byte("remote-id-"+string(rune('a'+variant%26)))),
-		opt6(39, []byte{1}, labels("client.example.org")),
-		opt6(56, cat(be16(1), be16(16), ip6("2001:db8::123")), cat(be16(2), be16(16), ip6("ff05::101")), cat(be16(3), be16(len(labels("ntp.example.org"))), labels("ntp.example.org"))),
+		opt6(39, []byte{1}, labels([]string{"client.example.org", "localhost"}[variant%2])),
+		opt6(56, cat(be16(1), be16(16), ip6("2001:db8::123")), cat(be16(2), be16(16), ip6("ff05::101")), cat(be16(3), be16(len(labels("ntp.example.org"))), labels("ntp.example.org")),
+			cat(be16(3), be16(len(labels("timesrv"))), labels("timesrv")), cat(be16(9), be16(3), []byte{1, 2, v})), // + a one-label name and an unknown sub-option
 		opt6(59, []byte("tftp://[2001:db8::1]/boot.efi")),
 		opt6(60, lv16("root=/dev/sda1", "quiet")),
 		opt6(61, be16(7), be16(9)),
@@ -193,6 +194,11 @@ func v6Options(variant int) [][]byte {
 		opt6(135, be16(3547)),
 		opt6(65001, []byte("generic option payload "+string(rune('a'+variant%26)))),
 		opt6(65002), // zero-length unknown option
+		// option types that normally live inside a container, here at the top level (the parser accepts them)
+		iaAddr("2001:db8:5::5", status6(0, "top")),
+		iaPrefix("2001:db8:26::", 48),
+		opt6(98, []byte{16, 40, 8, 0x00, 10, 1, 0, 0}, ip6("2001:db8:98::")),
+		opt6(99, []byte{0x01, 0x00}, be16(1280)),
 		opt6(3, []byte{0xaa, 0xbb, 1, v}, be32(5), be32(6)),                              // a second IA_NA, without addresses
 		opt6(17, be32(99999), cat(be16(65000), be16(0), be16(7), be16(2), []byte{v, v})), // vendor opts with an empty and an unknown sub-option
 	}
@@ -222,7 +228,7 @@ func v6Relay(variant int, depth int) []byte {
 			inner = cat(hdr, opt6(18, []byte(fmt.Sprintf("relay-if-%d", d))), opt6(9, inner), opt6(37, be32(3561), []byte("rid")), opt6(135, be16(547+d)), opt6(79, be16(1), []byte{2, 1, 1, 1, 1, byte(d)}))
 		} else {
 			// the relay-message option first, other options after it
-			inner = cat(hdr, opt6(9, inner), opt6(18, []byte(fmt.Sprintf("relay-if-%d", d))), opt6(65003, []byte{byte(d)}))
+			inner = cat(hdr, opt6(9, inner), opt6(18, []byte(fmt.Sprintf("relay-if-%d", d))), opt6(65003, []byte{byte(d)}), iaAddr("2001:db8:9::9"), opt6(24, labels("relay")))
 		}
 	}
 	return inner
@@ -674,6 +680,18 @@ func (st *bufState) use(h *heldMsg, w int) {
 	if !bytes.Equal(out0, h.ref.enc) {
 		s.Violate("E-output-shared", "message %d: a later ToBytes call rewrote the bytes an earlier call had returned", h.idx)
 		return
+	}
+	// the spare capacity of a returned slice belongs to the caller as well
+	if spare := out0[len(out0):cap(out0)]; len(spare) > 0 {
+		scribble(spare, 1, h.idx)
+		if !bytes.Equal(out2, h.ref.enc) || !bytes.Equal(out0, h.ref.enc) {
+			s.Violate("E-output-shared", "message %d: writing into the spare capacity of one ToBytes result changed another result", h.idx)
+			return
+		}
+		if out3 := h.m.ToBytes(); !bytes.Equal(out3, h.ref.enc) || !bytes.Equal(out2, h.ref.enc) {
+			s.Violate("E-output-shared", "message %d: after the caller used the spare capacity of a ToBytes result, encodings differ", h.idx)
+			return
+		}
 	}
 	if !bytes.Equal(out2, h.ref.enc) {
 		s.Violate("E-output-shared", "message %d: after the caller modified the bytes returned by ToBytes, the next encoding differs (first difference at %d)", h.idx, firstDiff(out2, h.ref.enc))
